@@ -72,6 +72,7 @@ Nm(pre, i) == CASE i = 1 -> pre \o "1" [] i = 2 -> pre \o "2" [] OTHER -> pre \o
 Item == Struct(<<Value("a", -1, -1, SimpleA(U8, {IntV(1), IntV(2)}))>>, -1)
 \* an item that ends in a terminated string: shows whether the end-of-PDU flag is handled per item
 ItemT == Struct(<<Value("t", -1, -1, SimpleA(MinMax("ascii", 0, 3, "ZERO"), {TextV(<<65>>), TextV(<<65, 66, 67>>)}))>>, -1)
+ItemL == Struct(<<Value("b", -1, -1, SimpleA(Leading("bytes", 8, TRUE), {BytesV(<<>>), BytesV(<<18, 52>>)}))>>, -1)
 Two == Struct(<<Value("a", -1, -1, Simple(U8)), Value("b", -1, -1, SimpleA(U8, {IntV(7)}))>>, -1)
 \* (one table with data-object rows, one with structure rows: a set of values cannot mix integers and dictionaries)
 Tab1 == [k |-> "table", kdct |-> U8, rows |-> <<Row("row1", 1, SimpleA(U8, {IntV(5), IntV(200)})),
@@ -138,6 +139,8 @@ Shapes(i) == {
     \* items that end in a terminated string, in a static field and in front of an end marker (the last item is the last)
     <<Value(Nm("p", i), -1, -1, [k |-> "sfield", st |-> ItemT, cnt |-> 2, isz |-> 4])>>,
     <<Value(Nm("p", i), -1, -1, [k |-> "demfield", st |-> ItemT, tdct |-> U8, tv |-> IntV(255)])>>,
+    \* items of dynamic size inside slots of fixed size
+    <<Value(Nm("p", i), -1, -1, [k |-> "sfield", st |-> ItemL, cnt |-> 2, isz |-> 4])>>,
 
     <<Matching(Nm("m", i), -1, 1, 1)>>,
     <<Matching(Nm("m", i), -1, 1, 2)>>,
